@@ -19,7 +19,7 @@ from .diffdrv import diff_event, to_plain
 from .encode import enc, enc_diff
 from .c02 import classify
 
-C01_CLAUSES = ("Completes", "RoundTrip", "PyPatch", "EmptyOnlyIfSame", "SameOnlyIfEmpty",
+C01_CLAUSES = ("Completes", "RoundTrip", "PyPatch", "RepeatPatch", "DiffUnchangedByPatch", "EmptyOnlyIfSame", "SameOnlyIfEmpty",
                "FilePatch", "FileDiffSame")
 
 
